@@ -225,6 +225,8 @@ BREAKING = [
     ('C20', 'sc3/synth/ugen.py', "        self._synthdef = _libsc3.main._current_synthdef\n        if self._synthdef is not None:\n            self._synthdef._add_ugen(self)\n\n    def _collect_constants", "        self._synthdef = _libsc3.main._current_synthdef\n        if self._synthdef is not None:\n            pass\n\n    def _collect_constants", 'a new unit does not register with the definition being built'),
     ('C13', 'sc3/base/stream.py', "            indict = indict.copy()\n            indict.update(self.value)\n            return (yield indict)", "            indict.update(self.value)\n            return (yield indict)", 'embedding a dictionary writes into the input event'),
     ('C13', 'sc3/base/stream.py', "    if hasattr(obj, '__embed__'):\n        return obj.__embed__(inval)", "    if hasattr(obj, '__embed__'):\n        return obj.__embed__()", 'embed() drops the input value'),
+    ('C13', 'sc3/seq/eventstream.py', "                self._stream = stm.embed(self.pattern, inval)\n                return next(self._stream)\n            else:\n                return self._stream.send(inval)", "                self._stream = stm.embed(self.pattern, inval)\n                return next(self._stream)\n            else:\n                return self._stream.send(None)", 'pattern value stream drops the input value after the first call'),
+    ('C14', 'sc3/seq/eventstream.py', "                clock = clock or _libsc3.main.current_tt._clock\n                clock.play(self, quant)", "                clock = _libsc3.main.current_tt._clock\n                clock.play(self, quant)", 'event stream player ignores the clock it is given'),
 ]
 
 
